@@ -228,8 +228,11 @@ def run_node(spec):
         if outcome == 'ready':
             time.sleep(0.02)
             rec('shutdown-begin')
-            k.secnode.shutdown_modules()
-            rec('shutdown-end')
+            try:
+                k.secnode.shutdown_modules()
+                rec('shutdown-end')
+            except Exception as e:   # noqa
+                rec('shutdown-exception', f'{type(e).__name__}: {e}')
     finally:
         fsrv.MultiEvent = real_me
         sys.setrecursionlimit(old_limit)
@@ -405,7 +408,9 @@ def check(ctx, spec):
                 return
     ctx.ok('ready-after-first-round')
     # shutdown: pollers stopped first, every module exactly once, users before the modules they are attached to
-    sb = idx[('shutdown-begin', None)][0]
+    for e in kinds('shutdown-exception'):
+        ctx.finding('shutdown-raised', spec, f'shutdown_modules raised {e[1]}; shut down so far {[x[1] for x in events if x[0] == "shutdown"]}')
+        return
     shut = [(n, e[1]) for n, e in enumerate(events) if e[0] == 'shutdown']
     first_shut = min([n for n, _ in shut] or [len(events)])
     polls_after = [e for n, e in enumerate(events) if n > first_shut and e[0] == 'doPoll']
